@@ -244,3 +244,23 @@ func TestRealParameterSetsKeepTheirTypes(t *testing.T) {
 	}
 	_ = rtppack.H264Single
 }
+
+func TestWholeParamSets(t *testing.T) {
+	frag := 0
+	rapid.Check(t, func(t *rapid.T) {
+		c := rapid.SampledFrom([]Codec{H264, H265}).Draw(t, "codec")
+		s := VideoStream(Config{Codec: c, MaxNAL: 3000, MaxGOP: 2}, PackConfig{WholeParamSets: true, OnlyFragment: rapid.Bool().Draw(t, "onlyfrag")}).Draw(t, "s")
+		checkVideo(t, c, s, 65535)
+		for _, m := range s.Meta {
+			if m.Kind == Fragment {
+				frag++
+				if isParamSet(c, s.Units[m.Units[0]].Bytes) {
+					t.Fatalf("parameter set fragmented")
+				}
+			}
+		}
+	})
+	if frag == 0 {
+		t.Fatal("no fragments at all")
+	}
+}
